@@ -1,0 +1,36 @@
+//go:build verif
+
+package filesystem
+
+import (
+	"sync/atomic"
+)
+
+// VerifInjectorFunc is the signature of fault injectors that can be installed
+// with VerifSetInjector. It receives the name of the operation about to be
+// performed and the (leaf) path it applies to. If it returns a non-nil error,
+// then the operation isn't performed and the error is returned as if the
+// underlying system call had failed.
+type VerifInjectorFunc func(operation, path string) error
+
+// verifInjector is the currently installed injector (if any).
+var verifInjector atomic.Pointer[VerifInjectorFunc]
+
+// VerifSetInjector installs (or, if injector is nil, removes) the fault
+// injector consulted at the start of filesystem operations. It only exists
+// when the verif build tag is set.
+func VerifSetInjector(injector VerifInjectorFunc) {
+	if injector == nil {
+		verifInjector.Store(nil)
+	} else {
+		verifInjector.Store(&injector)
+	}
+}
+
+// verifFault consults the installed injector (if any).
+func verifFault(operation, path string) error {
+	if injector := verifInjector.Load(); injector != nil {
+		return (*injector)(operation, path)
+	}
+	return nil
+}
